@@ -18,6 +18,7 @@ ItemText(i) ==
       [] i = "dqesc"  -> <<DQ, 97, BSL, DQ, 98, DQ>>          \* "a\"b"
       [] i = "raw"    -> <<BQ, 114, BSL, BQ>>                  \* `r\`
       [] i = "dqopen" -> <<DQ, 120>>                           \* "x   (unterminated)
+      [] i = "dqbs"   -> <<DQ, 120, BSL>>                      \* "x\  (unterminated, ends in the escape character)
       [] i = "lp"     -> S("(")
       [] i = "rp"     -> S(")")
       [] i = "lb"     -> S("[")
@@ -40,7 +41,7 @@ ItemText(i) ==
       [] i = "ctl"    -> <<1>>
       [] i = "slash"  -> S("/")
 Reduced == {"id", "ver", "dq", "lp", "rp", "comma", "nl", "crlf", "sp", "com", "eacute", "lb"}
-Full == Reduced \cup {"id2", "dqesc", "raw", "dqopen", "rb", "lc", "arrow", "cr", "tab", "com0", "comsp", "bad", "block", "nbsp", "ctl", "slash"}
+Full == Reduced \cup {"id2", "dqesc", "raw", "dqopen", "dqbs", "rb", "lc", "arrow", "cr", "tab", "com0", "comsp", "bad", "block", "nbsp", "ctl", "slash"}
 Items == IF Alphabet = "reduced" THEN Reduced ELSE Full
 
 RECURSIVE TextOf(_)
